@@ -44,6 +44,48 @@ pub struct Stats {
 pub const MAX_SAMPLES: usize = 8;
 
 impl Stats {
+    /// for passing partial results from worker processes to the driver
+    pub fn to_json(&self) -> Value {
+        json!({
+            "evaluations": self.evaluations, "nontrivial": self.nontrivial, "states": self.states, "transitions": self.transitions,
+            "traces_validated": self.traces_validated, "outcomes": self.outcomes, "samples": self.samples, "caps": self.caps, "counters": self.counters,
+            "violations": self.violations.iter().map(|(k, (n, d))| json!([k, n, d])).collect::<Vec<_>>(),
+        })
+    }
+    pub fn from_json(v: &Value) -> Stats {
+        let mut s = Stats::default();
+        let u = |k: &str| v[k].as_u64().unwrap_or(0);
+        s.evaluations = u("evaluations");
+        s.nontrivial = u("nontrivial");
+        s.states = u("states");
+        s.transitions = u("transitions");
+        s.traces_validated = u("traces_validated");
+        if let Some(o) = v["outcomes"].as_object() {
+            for (k, n) in o {
+                s.outcomes.insert(k.clone(), n.as_u64().unwrap_or(0));
+            }
+        }
+        if let Some(o) = v["counters"].as_object() {
+            for (k, n) in o {
+                s.counters.insert(k.clone(), n.as_u64().unwrap_or(0));
+            }
+        }
+        if let Some(a) = v["samples"].as_array() {
+            s.samples = a.clone();
+        }
+        if let Some(a) = v["caps"].as_array() {
+            s.caps = a.iter().filter_map(|x| x.as_str().map(|y| y.to_string())).collect();
+        }
+        if let Some(a) = v["violations"].as_array() {
+            for e in a {
+                s.violations.insert(e[0].as_str().unwrap_or("").to_string(), (e[1].as_u64().unwrap_or(1), e[2].clone()));
+            }
+        }
+        s
+    }
+}
+
+impl Stats {
     pub fn merge(&mut self, o: Stats) {
         self.evaluations += o.evaluations;
         self.nontrivial += o.nontrivial;
